@@ -120,6 +120,8 @@ WHITELIST = [
      "Result<IntervalYM>", "SqlDt.IntervalYM.addIntervalYm"),
     ("interval.rs", "IntervalYM", "sub_interval_ym", "IntervalYM.sub_interval_ym", "self, interval: IntervalYM",
      "Result<IntervalYM>", "SqlDt.IntervalYM.subIntervalYm"),
+    ("interval.rs", "Ord for IntervalYM", "cmp", "IntervalYM.cmp", "self, other: IntervalYM", "Ordering",
+     "fun a b => SqlDt.Tr.cmpInt a b"),
     ("interval.rs", "IntervalDT", "from_dhms_unchecked", "IntervalDT.from_dhms_unchecked", DHMS, "IntervalDT",
      "SqlDt.IntervalDT.fromDhmsUnchecked"),
     ("interval.rs", "IntervalDT", "try_from_dhms", "IntervalDT.try_from_dhms", DHMS, "Result<IntervalDT>",
@@ -360,6 +362,7 @@ class Crate(object):
         self.structs = {}   # (file, name) -> [type tokens] of a one-field tuple struct
         self.lines = {}     # file -> raw source lines
         self.broken = {}    # file -> why it could not be scanned
+        self.derives = {}   # (file, canonical struct name) -> (line, trait, trait, ...) from #[derive(..)]
 
     def fns_of_type(self, self_ty, name):
         """All functions called `name` in an impl whose self type is `self_ty` (after aliasing)."""
@@ -587,6 +590,10 @@ def load_crate(repo):
         with open(os.path.join(srcdir, fname)) as f:
             src = f.read()
         crate.lines[fname] = src.split("\n")
+        for m in re.finditer(r"#\[derive\(([^)]*)\)\]\s*(?:#\[[^\]]*\]\s*)*(?:pub(?:\([a-z]+\))?\s+)?struct\s+(\w+)", src):
+            canon = FILE_TYPE_ALIASES.get(fname, {}).get(m.group(2), m.group(2))
+            crate.derives[(fname, canon)] = (src.count("\n", 0, m.start()) + 1,) + tuple(
+                x.strip() for x in m.group(1).split(","))
         try:
             toks = lex(src)
             scan_items(crate, fname, src, toks, 0, len(toks), None)
@@ -667,7 +674,9 @@ class Parser(object):
             return parts[0] if len(parts) == 1 else ("tuple", tuple(parts))
         if self.eat("["):
             el = self.parse_type()
+            size = None
             if self.eat(";"):
+                start = self.i
                 depth = 0
                 while not (self.at("]") and depth == 0):
                     if self.at("["):
@@ -675,8 +684,9 @@ class Parser(object):
                     elif self.at("]"):
                         depth -= 1
                     self.i += 1
+                size = self.toks[start:self.i]
             self.expect("]")
-            return ("array", el)
+            return ("array", el, size)
         if t.kind != "id":
             self.fail("type")
         self.i += 1
@@ -1068,8 +1078,11 @@ def parse_type_toks(toks):
 #   ('ite', c, t, e, comment) ('let', name, val, body, comment) ('match', scrut, [(pat, body)], comment)
 #   ('tuple', [es]) ('proj', e, i, n) ('lam', [names], body) ('list', [es]) ('com', comment, e)
 #   ('inl', [(param, leantype)], body, [args])   an inlined helper function, printed as an applied lambda
+#   ('imp', hypothesis, conclusion)              only in the safety predicates
+# Arithmetic nodes may carry one extra trailing component (the Rust type / divisor / table length) that the printer
+# ignores and the safety-predicate generator reads.
 
-LEAN_PREC = {"*": 70, "/": 70, "%": 70, "+": 65, "-": 65, "=": 50, "≠": 50, "<": 50, "≤": 50, ">": 50, "≥": 50,
+LEAN_PREC = {"→": 25, "*": 70, "/": 70, "%": 70, "+": 65, "-": 65, "=": 50, "≠": 50, "<": 50, "≤": 50, ">": 50, "≥": 50,
              "∧": 35, "∨": 30, "&&": 35, "||": 30}
 RIGHT_ASSOC = ("∧", "∨")
 WIDTH = 110
@@ -1097,6 +1110,8 @@ def flat(node):
         if p == 50:
             return "%s %s %s" % (wrap(node[2], 51), op, wrap(node[3], 51)), p
         return "%s %s %s" % (wrap(node[2], p), op, wrap(node[3], p + 1)), p
+    if k == "imp":      # ('imp', hypothesis, conclusion)
+        return "%s → %s" % (wrap(node[1], 26), wrap(node[2], 25)), 25
     if k == "neg":
         return "-" + wrap(node[1], 100), 75
     if k == "not":
@@ -1213,10 +1228,46 @@ def layout(node, ind):
                 out.append("%s| %s =>" % (pad, p))
                 out.extend(layout(b, ind + 4))
         return out
+    if k == "bin" and node[1] == "∧" and (has_binder(node) or len(pad) + len(flat(node)[0]) > WIDTH):
+        parts = conjuncts(node)
+        out = []
+        for i, c in enumerate(parts):
+            last = i == len(parts) - 1
+            if last and c[0] in ("let", "com"):
+                out.extend(layout(c, ind))
+            else:
+                lines = layout_paren(c, ind)
+                if not last:
+                    lines[-1] += " ∧"
+                out.extend(lines)
+        return out
+    if k == "imp" and (has_binder(node) or len(pad) + len(flat(node)[0]) > WIDTH):
+        return layout_paren(node, ind)
     if has_binder(node):
         # a binder nested inside an operator/application: fall back to the one-line form
         return [pad + flat(node)[0]]
     return [pad + flat(node)[0]]
+
+
+def conjuncts(node):
+    if node[0] == "bin" and node[1] == "∧":
+        return conjuncts(node[2]) + conjuncts(node[3])
+    return [node]
+
+
+def layout_paren(node, ind):
+    """A conjunct / hypothesis-conclusion pair as a self-delimited block."""
+    pad = " " * ind
+    s, prec = flat(node)
+    if not has_binder(node) and len(pad) + len(s) + 2 <= WIDTH:
+        return [pad + (s if prec > 35 else "(" + s + ")")]
+    if node[0] == "imp":
+        lines = ["%s(%s →" % (pad, wrap(node[1], 26))] + layout(node[2], ind + 2)
+    else:
+        inner = layout(node, ind + 1)
+        lines = [pad + "(" + inner[0].lstrip()] + inner[1:]
+    lines[-1] += ")"
+    return lines
 
 
 def A(s):
@@ -1243,6 +1294,8 @@ INT_RANGE = {
 }
 CAST_FN = {"i8": "asI8", "i16": "asI16", "i32": "asI32", "i64": "asI64", "isize": "asI64",
            "u8": "asU8", "u16": "asU16", "u32": "asU32", "u64": "asU64", "usize": "asU64"}
+FITS_FN = {"i8": "fitsI8", "i16": "fitsI16", "i32": "fitsI32", "i64": "fitsI64", "isize": "fitsI64",
+           "u8": "fitsU8", "u16": "fitsU16", "u32": "fitsU32", "u64": "fitsU64", "usize": "fitsU64"}
 CHECKED_FN = {"i32": "checkedI32", "i64": "checkedI64", "u32": "checkedU32", "u64": "checkedU64",
               "usize": "checkedU64", "isize": "checkedI64"}
 LEAN_RESERVED = set("""end at from in then do have show open local where with fun instance section namespace
@@ -1346,8 +1399,10 @@ class World(object):
         k = pt[0]
         if k == "tuple":
             return ("tuple", tuple(self.resolve(x, fname, self_ty) for x in pt[1]))
-        if k in ("result", "option", "array"):
+        if k in ("result", "option"):
             return (k, self.resolve(pt[1], fname, self_ty))
+        if k == "array":      # ('array', element type, length or None)
+            return (k, self.resolve(pt[1], fname, self_ty), self.array_size(pt[2] if len(pt) > 2 else None))
         if k == "named":
             name = pt[1]
             if name in ("Self", "Output"):      # `Self::Output` of the operator traits
@@ -1362,6 +1417,18 @@ class World(object):
                 return ("enum", name)
             raise Unsupported("unknown type `%s`" % name)
         raise Unsupported("type %r" % (pt,))
+
+    def array_size(self, toks):
+        """Length of `[T; N]`: a literal or a literal-valued constant (else None)."""
+        if not toks or len(toks) != 1:
+            return None
+        t = toks[0]
+        if t.kind == "int":
+            return parse_int(t.text)[0]
+        c = self.crate.consts.get((None, t.text)) if t.kind == "id" else None
+        if c is not None and len(c.init) == 1 and c.init[0].kind == "int":
+            return parse_int(c.init[0].text)[0]
+        return None
 
     def raw_int(self, t):
         """The machine integer type underneath a (nested) newtype."""
@@ -1383,6 +1450,8 @@ def types_compatible(a, b):
             return a[1] is None or b[1] is None or types_compatible(a[1], b[1])
         if a[0] == "tuple" and len(a[1]) == len(b[1]):
             return all(types_compatible(x, y) for x, y in zip(a[1], b[1]))
+        if a[0] == "array":
+            return types_compatible(a[1], b[1]) or a[1] == "lit" or b[1] == "lit"
     if a in ("lit", "infer") and is_intlike(b) or b in ("lit", "infer") and is_intlike(a):
         return True
     return False
@@ -1689,7 +1758,7 @@ class Translator(object):
                 raise Unsupported("unary minus on unsigned %s" % t)
             if n[0] == "num":
                 return ("num", -n[1]), t
-            return ("neg", n), t
+            return (("neg", n, t) if is_int(t) else ("neg", n)), t
         if k == "binary":
             return self.tr_binary(e, env, want)
         if k == "cast":
@@ -1710,7 +1779,7 @@ class Translator(object):
             ty = elw
             for _, t in parts:
                 ty = t if ty is None else join_types(ty, t, "array literal")
-            return ("list", [n for n, _ in parts]), ("array", ty if ty is not None else "lit")
+            return ("list", [n for n, _ in parts]), ("array", ty if ty is not None else "lit", len(parts))
         if k == "field":
             n, t = self.tr_expr(e[1], env, None)
             if isinstance(t, tuple) and t[0] == "tuple" and e[2].isdigit() and int(e[2]) < len(t[1]):
@@ -1734,10 +1803,11 @@ class Translator(object):
                 elems = env.get("$l", {}).get(e[1][1][0])
             if elems is not None and ix[0] == "num" and 0 <= ix[1] < len(elems):
                 return elems[ix[1]], (el if el != "lit" else "i32")
+            length = len(elems) if elems is not None else (t[2] if len(t) > 2 else None)
             if is_intlike(el):
-                return ("app", "idxD", [n, ix, ("num", 0)]), (el if el != "lit" else "i32")
+                return ("app", "idxD", [n, ix, ("num", 0)], ("idx", length)), (el if el != "lit" else "i32")
             if isinstance(el, tuple) and el[0] == "array":
-                return ("app", "idxD", [n, ix, A("[]")]), el
+                return ("app", "idxD", [n, ix, A("[]")], ("idx", length)), el
             raise Unsupported("indexing an array of %s" % type_str(el))
         if k == "block":
             if not e[1] and e[2] is not None:
@@ -1840,7 +1910,10 @@ class Translator(object):
             k = self.static_value(e[3])
             if k is None or not (0 <= k < 64) or not is_intlike(t):
                 raise Unsupported("shift by a non-constant amount")
-            return ("bin", "*" if op == "<<" else "/", n, ("num", 2 ** k)), (t if t != "lit" else "i32")
+            rt = t if t != "lit" else "i32"
+            if op == "<<" and is_int(rt):
+                return ("bin", "*", n, ("num", 2 ** k), rt), rt       # the shifted value must still fit (stricter than Rust)
+            return ("bin", "*" if op == "<<" else "/", n, ("num", 2 ** k)), rt
         if op == "&":
             for a, b in ((e[2], e[3]), (e[3], e[2])):
                 m = self.static_value(b)
@@ -1864,20 +1937,22 @@ class Translator(object):
             if ln[0] == "num" and rn[0] == "num":
                 v = ln[1] + rn[1] if op == "+" else ln[1] - rn[1] if op == "-" else ln[1] * rn[1]
                 return ("num", v), t
-            return ("bin", op, ln, rn), t
+            return (("bin", op, ln, rn, t) if is_int(t) else ("bin", op, ln, rn)), t
         if op in ("/", "%"):
             if t == "infer":
                 raise Unsupported("`%s` on a variable whose integer type is not annotated" % op)
             if t == "lit":
                 t = wi or "i32"
             sv = self.static_value(e[3])
+            if sv is None and rn[0] == "num":
+                sv = rn[1]          # a local constant (propagated)
             if sv == 0:
                 raise Unsupported("division by zero")
             if sv is None and not self.is_const_like(e[3], env):
                 raise Unsupported("division by a non-constant (`rdiv`/`rrem` model constant divisors only)")
             if is_signed(t):
-                return ("app", "rdiv" if op == "/" else "rrem", [ln, rn]), t
-            return ("bin", op, ln, rn), t
+                return ("app", "rdiv" if op == "/" else "rrem", [ln, rn], ("div", t, sv)), t
+            return ("bin", op, ln, rn, ("div", t, sv)), t
         raise Unsupported("operator `%s`" % op)
 
     # ---- calls
@@ -2015,16 +2090,19 @@ class Translator(object):
                 self.unify_int(t, at, "argument of `.%s()`" % name)
             an = [x for x, _ in args]
             if name == "abs" and not args and is_signed(t):
-                return ("app", "absI32" if t == "i32" else "absI64" if t in ("i64", "isize") else "absI", [n]), t
+                return ("app", "absI32" if t == "i32" else "absI64" if t in ("i64", "isize") else "absI", [n],
+                        ("abs", t)), t
             if name == "unsigned_abs" and not args and is_signed(t):
                 return ("app", "uabs", [n]), "u" + t[1:]
             if name == "signum" and not args and is_signed(t):
                 return ("app", "signum", [n]), t
             if name in ("div_euclid", "rem_euclid") and len(args) == 1:
                 sv = self.static_value(arg_exprs[0])
+                if sv is None and an[0][0] == "num":
+                    sv = an[0][1]
                 if sv == 0 or (sv is None and not self.is_const_like(arg_exprs[0], env)):
                     raise Unsupported("`.%s()` by a non-constant" % name)
-                return ("bin", "/" if name == "div_euclid" else "%", n, an[0]), t
+                return ("bin", "/" if name == "div_euclid" else "%", n, an[0], ("div", t, sv)), t
             if name in ("checked_add", "checked_sub", "checked_mul") and len(args) == 1 and t in CHECKED_FN:
                 op = {"checked_add": "+", "checked_sub": "-", "checked_mul": "*"}[name]
                 return ("app", CHECKED_FN[t], [("bin", op, n, an[0])]), ("option", t)
@@ -2212,6 +2290,8 @@ class Translator(object):
                 raise Unsupported("line %d: constant of type %s declared %s" % (line, type_str(vt), type_str(cty)))
             env2 = dict(env)
             env2[name] = cty
+            if val[0] == "num" and is_int(cty):       # a local scalar constant is propagated
+                env2["$k"] = dict(env.get("$k", {}), **{name: val[1]})
             body, bt = self.seq(rest, env2, mode, rvars, want)
             return mk_let("%s : %s" % (lean_ident(name), lean_type(cty)), val, body, comment), bt
         if kind == "assign":
@@ -2512,6 +2592,115 @@ class Translator(object):
             return self.wrap_tries(binds, node, rt)
         raise Unsupported("match on %s" % type_str(st))
 
+# ----------------------------------------------------------------------------------------------
+# 4d. Safety predicates: "no arithmetic node overflows its Rust type, no division by zero, no index out of range"
+# ----------------------------------------------------------------------------------------------
+# Built structurally over the translated Lean term (whose arithmetic nodes carry the Rust type), path-sensitively:
+#   safe(if c then a else b) = safe c ∧ (c → safe a) ∧ (¬c → safe b);  a ∧ b: safe a ∧ (a → safe b);  a ∨ b: safe a ∧ (¬a → safe b)
+#   safe(let x := v; b) = safe v ∧ (let x := v; safe b);  match arms under their patterns;  calls: Tr.g_safe actuals.
+# `None` stands for `True`.
+
+def s_and(*parts):
+    out = None
+    for p in parts:
+        if p is None:
+            continue
+        out = p if out is None else ("bin", "∧", out, p)
+    return out
+
+
+def s_imp(c, s):
+    return None if s is None else ("imp", c, s)
+
+
+def strip_tag(node):
+    """The value term without the printer-invisible tag (so that the safety predicate shows plain arithmetic)."""
+    return node
+
+
+def safe_of(node, fn_names):
+    k = node[0]
+    S = lambda n: safe_of(n, fn_names)
+    if k in ("atom", "num"):
+        return None
+    if k == "com":
+        return S(node[2])
+    if k == "let":
+        body = S(node[3])
+        return s_and(S(node[2]), None if body is None else ("let", node[1], node[2], body, None))
+    if k == "ite":
+        c = node[1]
+        return s_and(S(c), s_imp(c, S(node[2])), s_imp(("not", c), S(node[3])))
+    if k == "match":
+        arms = [(p, S(b)) for p, b in node[2]]
+        m = None
+        if any(b is not None for _, b in arms):
+            m = ("match", node[1], [(p, b if b is not None else A("True")) for p, b in arms], None)
+        return s_and(S(node[1]), m)
+    if k in ("tuple", "list"):
+        return s_and(*[S(x) for x in node[1]])
+    if k == "proj":
+        return S(node[1])
+    if k == "not":
+        return S(node[1])
+    if k == "imp":
+        return None
+    if k == "inl":
+        body = S(node[2])
+        return s_and(*([S(a) for a in node[3]] + [None if body is None else ("inl", node[1], body, node[3])]))
+    if k == "neg":
+        fits = None
+        if len(node) > 2 and node[2] in FITS_FN:
+            fits = ("app", FITS_FN[node[2]], [("neg", node[1])])
+        return s_and(S(node[1]), fits)
+    if k == "bin":
+        op, l, r = node[1], node[2], node[3]
+        tag = node[4] if len(node) > 4 else None
+        if op == "∧":
+            return s_and(S(l), s_imp(l, S(r)))
+        if op == "∨":
+            return s_and(S(l), s_imp(("not", l), S(r)))
+        extra = None
+        if isinstance(tag, str) and tag in FITS_FN:
+            extra = ("app", FITS_FN[tag], [("bin", op, l, r)])
+        elif isinstance(tag, tuple) and tag[0] == "div":
+            extra = div_cond(l, r, tag[1], tag[2])
+        return s_and(S(l), S(r), extra)
+    if k == "app":
+        name, args = node[1], node[2]
+        tag = node[3] if len(node) > 3 else None
+        sargs = [S(a) for a in args]
+        if name == "decide" and len(args) == 1:
+            return sargs[0]
+        if isinstance(tag, tuple) and tag[0] == "div":
+            return s_and(sargs[0], sargs[1], div_cond(args[0], args[1], tag[1], tag[2]))
+        if isinstance(tag, tuple) and tag[0] == "idx":
+            ix = args[1]
+            if tag[1] is not None:
+                bound = ("bin", "<", ix, ("num", tag[1]))
+            else:
+                bound = ("bin", "<", ix, ("app", "Int.ofNat", [("app", "List.length", [args[0]])]))
+            return s_and(sargs[0], sargs[1], ("bin", "≤", ("num", 0), ix), bound)
+        if isinstance(tag, tuple) and tag[0] == "abs":
+            return s_and(sargs[0], ("app", FITS_FN[tag[1]], [("app", "absI", [args[0]])]))
+        if name.startswith("Tr.") and name[3:] in fn_names:
+            return s_and(*(sargs + [("app", name + "_safe", args)]))
+        return s_and(*sargs)
+    raise AssertionError("safe_of: %r" % (node[:2],))
+
+
+def div_cond(l, r, ty, sv):
+    """Rust panics on `x / 0`, `x % 0` and on `MIN / -1`, `MIN % -1`."""
+    lo = INT_RANGE[ty][0] if ty in INT_RANGE else None
+    if sv is not None:
+        if sv == -1 and lo is not None and lo < 0:
+            return ("bin", "≠", l, ("num", lo))
+        return None
+    c = ("bin", "≠", r, ("num", 0))
+    if lo is not None and lo < 0:
+        c = ("bin", "∧", c, ("not", ("bin", "∧", ("bin", "=", l, ("num", lo)), ("bin", "=", r, ("num", -1)))))
+    return c
+
 
 # ----------------------------------------------------------------------------------------------
 # 5. Driver
@@ -2538,6 +2727,17 @@ def uabs (x : Int) : Int := if x < 0 then -x else x
 def signum (x : Int) : Int := if x < 0 then -1 else if x = 0 then 0 else 1
 def checkedU32 (x : Int) : Option Int := if 0 ≤ x ∧ x ≤ 4294967295 then some x else none
 def checkedU64 (x : Int) : Option Int := if 0 ≤ x ∧ x ≤ 18446744073709551615 then some x else none
+def fitsI8 (x : Int) : Prop := -128 ≤ x ∧ x ≤ 127
+def fitsI16 (x : Int) : Prop := -32768 ≤ x ∧ x ≤ 32767
+def fitsU8 (x : Int) : Prop := 0 ≤ x ∧ x ≤ 255
+def fitsU16 (x : Int) : Prop := 0 ≤ x ∧ x ≤ 65535
+/-- `u64` and (on the 64-bit targets the crate is built for) `usize`. -/
+def fitsU64 (x : Int) : Prop := 0 ≤ x ∧ x ≤ 18446744073709551615
+instance (x : Int) : Decidable (fitsI8 x) := by unfold fitsI8; exact inferInstance
+instance (x : Int) : Decidable (fitsI16 x) := by unfold fitsI16; exact inferInstance
+instance (x : Int) : Decidable (fitsU8 x) := by unfold fitsU8; exact inferInstance
+instance (x : Int) : Decidable (fitsU16 x) := by unfold fitsU16; exact inferInstance
+instance (x : Int) : Decidable (fitsU64 x) := by unfold fitsU64; exact inferInstance
 /-- `Ord::cmp` on integers, as the discriminant of `std::cmp::Ordering` (Less = -1, Equal = 0, Greater = 1). -/
 def cmpInt (a b : Int) : Int := if a < b then -1 else if a = b then 0 else 1
 '''
@@ -2645,6 +2845,13 @@ def translate_entry(world, ent):
         return {"node": node, "deps": tr.deps, "inlined": tr.inlined, "line": c.line, "params": [], "ret": ty,
                 "sha1": hashlib.sha1(text.encode()).hexdigest()}
     item = crate.fns.get((ent["file"], ent["impl"], ent["fn"]))
+    if item is None and ent["fn"] == "cmp" and (ent["impl"] or "").startswith("Ord for ") \
+            and "Ord" in crate.derives.get((ent["file"], ent["self_ty"]), ()):
+        # `#[derive(Ord)]` on a one-field struct: comparison of the field
+        params = [("self", ("nt", ent["self_ty"])), ("other", ("nt", ent["self_ty"]))]
+        return {"safe": None, "node": ("app", "cmpInt", [A("self"), A("other")]), "deps": set(), "inlined": [],
+                "line": crate.derives[(ent["file"], ent["self_ty"])][0], "params": params, "ret": ("enum", "Ordering"),
+                "sha1": hashlib.sha1(b"#[derive(Ord)]").hexdigest(), "derived": True}
     if item is None:
         if ent["file"] in crate.broken:
             raise Unsupported("%s could not be scanned (%s)" % (ent["file"], crate.broken[ent["file"]]))
@@ -2671,7 +2878,8 @@ def translate_entry(world, ent):
     if lean_type(ret) != lean_type(ent["wl_ret_t"]):
         raise Unsupported("return type changed: %s, whitelisted %s" % (type_str(ret), type_str(ent["wl_ret_t"])))
     node, t = tr.translate_body(item, params, ret)
-    return {"node": node, "deps": tr.deps, "inlined": sorted(set(tr.inlined)), "line": item.line, "params": params,
+    fn_names = set(e["lean"] for e in world.wl.values() if e["kind"] == "fn")
+    return {"safe": safe_of(node, fn_names), "node": node, "deps": tr.deps, "inlined": sorted(set(tr.inlined)), "line": item.line, "params": params,
             "ret": ret, "sha1": hashlib.sha1(item.src_text.encode()).hexdigest()}
 
 
@@ -2688,6 +2896,14 @@ def emit_def(ent, res):
         lines.append("-- inlined helpers: " + ", ".join(res["inlined"]))
     lines.append(sig)
     lines.extend(layout(res["node"], 2))
+    if ent["kind"] == "fn":
+        lines.append("")
+        lines.append("/-- No arithmetic node of `%s` leaves its Rust integer type, no division by zero, no index out of range"
+                     % ent["key"])
+        lines.append("    (path-sensitive; calls contribute the callee's predicate). -/")
+        lines.append("def %s_safe %s : Prop :=" % (ent["lean"], " ".join(
+            "(%s : %s)" % (lean_ident(n), lean_type(t)) for n, t in res["params"])))
+        lines.extend(layout(res["safe"] if res["safe"] is not None else A("True"), 2))
     return "\n".join(lines)
 
 
@@ -2697,7 +2913,13 @@ def emit_stub(world, ent, reason):
     else:
         ty = " → ".join([lean_type_atom(t) for _, t in ent["wl_params_t"]] + [lean_type(ent["wl_ret_t"])])
     reason = " ".join(str(reason).split())
-    return "-- UNTRANSLATED: %s\ndef %s : %s := %s" % (reason, ent["lean"], ty, ent["model"])
+    out = "-- UNTRANSLATED: %s\ndef %s : %s := %s" % (reason, ent["lean"], ty, ent["model"])
+    if ent["kind"] == "fn":
+        ps = [lean_type_atom(t) for _, t in ent["wl_params_t"]]
+        out += "\n-- UNTRANSLATED: no safety predicate either\ndef %s_safe : %s := %s" % (
+            ent["lean"], " → ".join(ps + ["Prop"]),
+            ("fun %s => True" % " ".join("_" for _ in ps)) if ps else "True")
+    return out
 
 
 def main(argv=None):
@@ -2784,6 +3006,10 @@ def main(argv=None):
         rec = {"function": ent["key"], "lean": "SqlDt.Tr." + ent["lean"], "model": ent["model"]}
         if isinstance(res, dict):
             rec.update({"status": "translated", "sha1": res["sha1"], "line": res["line"]})
+            if ent["kind"] == "fn":
+                # "proved" = the predicate `Tr.f_safe` is generated from the Rust body and Lemmas/TranslatedSafe.lean
+                # (which must build) proves it; a stub has no predicate
+                rec["safety"] = "proved"
             if res["inlined"]:
                 rec["inlined"] = res["inlined"]
             if ent.get("sig_note"):
@@ -2792,6 +3018,8 @@ def main(argv=None):
                 rec["calls"] = sorted("SqlDt.Tr." + d for d in res["deps"])
         else:
             rec.update({"status": "untranslated", "reason": res})
+            if ent["kind"] == "fn":
+                rec["safety"] = "untranslated"
         status.append(rec)
 
     header = [
